@@ -310,3 +310,83 @@ def c13_sortable_int(rep):
                 eng.solver.pop()
             rep.absorb(eng)
     rep.sample({"function": "to_sortable/from_sortable", "configs": 8})
+
+
+# ---------------------------------------------------------------- H1 (floats): float_to_sortable_long / sortable_long_to_float
+class _Packed(object):
+    """result of the stubbed struct pack: carries the 64 IEEE bits"""
+    def __init__(self, bits):
+        self.bits = bits
+
+
+def _float_stubs(W):
+    def dpack(eng, x):                       # struct '>d' pack of a float -> its IEEE-754 bits
+        if not (z3.is_expr(x) and z3.is_fp(x)):
+            x = z3.FPVal(float(x), z3.Float64())
+        return _Packed(z3.fpToIEEEBV(x))
+
+    def qunpack(eng, p):                     # struct '>q' unpack -> signed 64-bit int (sign-extended to W)
+        return (z3.SignExt(W - 64, p.bits),)
+
+    def qpack(eng, i):                       # struct '>q' pack of an int (must fit 64 bits signed)
+        t = eng.to_term(i)
+        eng.oblige("qpack-range", z3.Or(t < -(1 << 63), t >= (1 << 63)))
+        return _Packed(z3.Extract(63, 0, t))
+
+    def dunpack(eng, p):                     # struct '>d' unpack -> float
+        return (z3.fpBVToFP(p.bits, z3.Float64()),)
+    return {N._dpack: dpack, N._qunpack: qunpack, N._qpack: qpack, N._dunpack: dunpack}
+
+
+@q(bounds="every non-NaN IEEE double (incl. +-0, denormals, +-inf), signed=True (the only constructible float field); QF_FP + bit-vectors",
+   funcs=["whoosh.util.numeric.float_to_sortable_long", "whoosh.util.numeric.sortable_long_to_float"],
+   stubs=["struct '>d'/'>q' pack/unpack pairs -> fpToIEEEBV / fpBVToFP (bit-exact reinterpretation)"], timeout=dict(quick=400, thorough=900))
+def c13_sortable_float(rep):
+    import struct as _struct
+    # translator validation on boundary vectors through the real (unstubbed) functions
+    vals = [0.0, -0.0, 5e-324, -5e-324, 1.0, -1.0, 1.5e308, -1.5e308, float("inf"), float("-inf"), 2.2250738585072014e-308]
+    for a in vals:
+        for b in vals:
+            r = rp_sortable_float(True, _struct.unpack(">Q", _struct.pack(">d", a))[0], _struct.unpack(">Q", _struct.pack(">d", b))[0])
+            rep.queries += 1
+            if r is not None:
+                rep.violation("float sortable vector", "rp_sortable_float(True, %d, %d)" % (_struct.unpack(">Q", _struct.pack(">d", a))[0],
+                                                                                           _struct.unpack(">Q", _struct.pack(">d", b))[0]), r)
+                return
+    W = 72
+    eng = Engine(width=W, mode="merge", stubs=_float_stubs(W), timeout_ms=int(rep.timeout * 1000 / 6))
+    x, y = z3.FP("x", z3.Float64()), z3.FP("y", z3.Float64())
+    pre = [z3.Not(z3.fpIsNaN(x)), z3.Not(z3.fpIsNaN(y))]
+    for p in pre:
+        eng.solver.add(p)
+    try:
+        sx = eng.to_term(eng.call(N.float_to_sortable_long, [x, True], {}))
+        sy = eng.to_term(eng.call(N.float_to_sortable_long, [y, True], {}))
+        back = eng.call(N.sortable_long_to_float, [sx, True], {})
+    except Unsupported as e:
+        rep.inconclusive("float sortable encode", "pybmc: %s" % e)
+        return
+    bx, by = z3.fpToIEEEBV(x), z3.fpToIEEEBV(y)
+    side = [b for _, b in eng.obligations]
+    both_zero = z3.And(z3.fpIsZero(x), z3.fpIsZero(y))
+    goals = [
+        ("range [0, 2^64)", z3.Or(sx < 0, sx >= (1 << 64))),
+        ("order preserved: x < y => s(x) < s(y)", z3.And(z3.fpLT(x, y), z3.Not(sx < sy))),
+        ("order reflected: s(x) < s(y) => x < y (or both are zeros)", z3.And(sx < sy, z3.Not(z3.fpLT(x, y)), z3.Not(both_zero))),
+        ("injective on bit patterns", z3.And(sx == sy, bx != by)),
+        ("round trip is bit-exact", z3.fpToIEEEBV(back) != bx),
+    ]
+    if side:
+        goals.append(("side conditions (asserts, no overflow, pack ranges)", z3.Or(*side)))
+    for name, bad in goals:
+        r = eng.check(bad)
+        tag = "float_to_sortable_long " + name
+        if r == z3.unsat:
+            rep.held(tag)
+        elif r == z3.sat:
+            m = eng.last_model
+            rep.violation(tag, "rp_sortable_float(True, %d, %d)" % (m.eval(bx, model_completion=True).as_long(), m.eval(by, model_completion=True).as_long()))
+        else:
+            rep.inconclusive(tag, "solver unknown")
+    rep.absorb(eng)
+    rep.sample({"function": "float_to_sortable_long", "domain": "all non-NaN doubles"})
